@@ -156,8 +156,11 @@ def run_link(case: dict) -> LinkResult:
         enc = dec.encoder
         res.fired_history = 1
     else:
-        enc = C.build_encoder(case["code"])
-        dec = C.build_decoder(case["code"], case["decoder"], case.get("dec_opts"))
+        # hermetic: private deep copies of the (never called) per-process prototypes
+        import copy as _copy
+
+        dec = _copy.deepcopy(C.build_decoder(case["code"], case["decoder"], case.get("dec_opts")))
+        enc = dec.encoder if hasattr(dec, "encoder") else _copy.deepcopy(C.build_encoder(case["code"]))
     mod, demod = C.build_modem(case["mod"], case.get("via_registry", False))
     mod.eval()
     demod.eval()
